@@ -467,7 +467,7 @@ class Molecule(nx.Graph):
         subgraph.name = self.name
 
         # copy citations
-        subgraph.citations = self.citations
+        subgraph.citations = self.citations.copy()
         node_copies = [(node, copy.copy(self.nodes[node])) for node in nodes]
         subgraph.add_nodes_from(node_copies)
 
@@ -1229,7 +1229,7 @@ class Block(Molecule):
             default_attributes = {'resname': self.name}
         name_to_idx = {}
         mol = Molecule(force_field=force_field)
-        mol.citations = self.citations
+        mol.citations = self.citations.copy()
         mol.log_entries = copy.deepcopy(self.log_entries)
 
         for idx, node in enumerate(self.nodes, start=atom_offset):
